@@ -4,7 +4,9 @@ import (
 	"encoding/json"
 	"fmt"
 	"os"
+	"runtime"
 	"strconv"
+	"strings"
 	"testing"
 	"testing/synctest"
 
@@ -16,6 +18,11 @@ import (
 
 func TestMain(m *testing.M) {
 	logging.SetAllLoggers(logging.LevelFatal)
+	if lv := os.Getenv("VERIF_LOG"); lv != "" {
+		_ = logging.SetLogLevel("header/p2p", lv)
+		_ = logging.SetLogLevel("header/store", lv)
+		_ = logging.SetLogLevel("header/sync", lv)
+	}
 	code := m.Run()
 	evid.DumpAll()
 	os.Exit(code)
@@ -107,7 +114,20 @@ func replay[S any](t *testing.T, prop string, run func(*testing.T, S) Result) {
 
 // bubble runs f inside a synctest bubble and returns when every goroutine of it has exited.
 func bubble(t *testing.T, f func()) {
-	synctest.Test(t, func(*testing.T) { f() })
+	synctest.Test(t, func(*testing.T) {
+		f()
+		if os.Getenv("VERIF_DEBUG_LEAK") != "" {
+			synctest.Wait()
+			buf := make([]byte, 1<<20)
+			n := runtime.Stack(buf, true)
+			blocks := strings.Split(string(buf[:n]), "\n\n")
+			for _, b := range blocks {
+				if strings.Contains(b, "synctest bubble") && !strings.Contains(b, "props.bubble") && !strings.Contains(b, "[sleep") && !strings.Contains(b, "testingSynctestTest") {
+					fmt.Fprintf(os.Stderr, "LEAKED GOROUTINE:\n%s\n\n", b)
+				}
+			}
+		}
+	})
 }
 
 func evidFor(p string) *evid.Collector { return evid.For(p) }
